@@ -75,7 +75,21 @@ pub(super) fn create_goal_context(
         )?);
     }
 
+    let features = with_balance_features_last(features);
+
     GoalContextBuilder::with_features(&features)?.set_main_goal(goal_builder.build()?).build()
+}
+
+/// Work balance features derive their values from the states of other features (transport totals, capacity),
+/// so their states have to be updated after those, wherever the objective is listed. They define no constraints,
+/// so their position among the features matters only for that.
+fn with_balance_features_last(features: Vec<Feature>) -> Vec<Feature> {
+    let is_balance = |feature: &Feature| feature.name.split('+').all(|name| name.ends_with("_balance"));
+
+    let (balance, mut others): (Vec<_>, Vec<_>) = features.into_iter().partition(is_balance);
+    others.extend(balance);
+
+    others
 }
 
 /// Layer retains information about whether a feature is defined as standalone or as having some competitive.
@@ -281,9 +295,11 @@ fn get_features_with_goal(feature_layers: &[FeatureLayer]) -> GenericResult<(Vec
                     })
                     .collect::<GenericResult<Vec<_>>>()?;
 
+                let features = with_balance_features_last(features.clone());
+
                 all_features.push(
                     FeatureCombinator::default()
-                        .add_features(features)
+                        .add_features(features.as_slice())
                         // objectives will be combined below using [eval_multi_objective_strategy] function
                         .set_objective_combinator(|_| Ok(None))
                         .combine()?,
